@@ -580,3 +580,533 @@ Proof.
   apply (nodes_migration_valid lang g false o g true); [|exact H].
   unfold node_13_6. apply actions_router_step_valid; [apply action_13_6_valid | apply router_13_6_valid].
 Qed.
+
+(* ---- Migrate13_3: what jsonpath.visit leaves alone -------------------------------------------------------------------------- *)
+
+Definition lok (loc : option obj) : Prop := localization_ok (option_map JObj loc) = true.
+
+Section Visit.
+  Variable tx : str -> str.
+
+  Definition value_step (rem : list str) (container : json) (key : option str) (loc0 : option obj) (v : json)
+    : option obj * json :=
+    match rem with
+    | [] => txl tx loc0 container key v
+    | _ => visit tx rem loc0 v
+    end.
+
+  Definition obj_entry (sel : str) (rem : list str) (container : json) (loc0 : option obj) (kv : str * json)
+    : option obj * (str * json) :=
+    let '(k, v) := kv in
+    if str_eqb k sel || str_eqb sel star
+    then let '(loc', v') := value_step rem container (Some k) loc0 v in (loc', (k, v'))
+    else (loc0, kv).
+
+  Lemma visit_obj : forall sel rem loc o,
+    visit tx (sel :: rem) loc (JObj o)
+    = let '(loc', o') := map_st (obj_entry sel rem (JObj o)) loc o in (loc', JObj o').
+  Proof. intros sel rem loc o. destruct rem; reflexivity. Qed.
+
+  Definition arr_elem (sel : str) (rem : list str) (container : json) (acc : N * option obj * list json) (v : json)
+    : N * option obj * list json :=
+    let '(i, loc0, out) := acc in
+    if (match parse_number sel with Some n => n =? i | None => false end) || str_eqb sel star
+    then let '(loc', v') := value_step rem container None loc0 v in (i + 1, loc', out ++ [v'])
+    else (i + 1, loc0, out ++ [v]).
+
+  Lemma visit_arr : forall sel rem loc l,
+    visit tx (sel :: rem) loc (JArr l)
+    = let '(_, loc', l') := fold_left (arr_elem sel rem (JArr l)) l (0, loc, []) in (loc', JArr l').
+  Proof. intros sel rem loc l. destruct rem; reflexivity. Qed.
+
+  (* the localization stays well-formed *)
+  Lemma rewrite_translations_lok : forall uuid prop loc, lok loc -> lok (option_map (rewrite_translations tx uuid prop) loc).
+  Proof.
+    intros uuid prop loc H. unfold lok in *. destruct loc as [l|]; [|exact H]. cbn [option_map] in *.
+    unfold rewrite_translations. apply for_languages_ok; [|exact H].
+    intros lt Hlt. destruct (get_translation uuid prop lt); [now apply set_translation_ok | exact Hlt].
+  Qed.
+
+  Lemma txl_lok : forall loc container key val, lok loc -> lok (fst (txl tx loc container key val)).
+  Proof.
+    intros loc container key val H. unfold txl. cbn [fst].
+    destruct container; try exact H. destruct key as [prop|]; [|exact H].
+    destruct (nonempty (object_uuid kv) && nonempty prop); [now apply rewrite_translations_lok | exact H].
+  Qed.
+
+  Lemma visit_lok : forall path loc j, lok loc -> lok (fst (visit tx path loc j)).
+  Proof.
+    induction path as [|sel rem IH]; intros loc j H; [exact H|].
+    assert (Hv : forall container key loc0 v, lok loc0 -> lok (fst (value_step rem container key loc0 v))).
+    { intros container key loc0 v H0. unfold value_step. destruct rem; [now apply txl_lok | now apply IH]. }
+    destruct j as [| | | |l|o]; try exact H.
+    - rewrite visit_arr.
+      assert (Hf : forall l0 acc, lok (snd (fst acc)) -> lok (snd (fst (fold_left (arr_elem sel rem (JArr l)) l0 acc)))).
+      { induction l0 as [|v l0 IHl]; intros [[i loc0] out] H0; [exact H0|]. cbn [fold_left]. apply IHl.
+        unfold arr_elem. destruct (_ || _); [|exact H0].
+        specialize (Hv (JArr l) None loc0 v H0). destruct (value_step rem (JArr l) None loc0 v). exact Hv. }
+      specialize (Hf l (0, loc, []) H). destruct (fold_left (arr_elem sel rem (JArr l)) l (0, loc, [])) as [[i loc'] l'].
+      exact Hf.
+    - rewrite visit_obj.
+      destruct (map_st_inv (obj_entry sel rem (JObj o)) lok (fun _ => True) (fun _ => True)) with (l := o) (st := loc) as [H1 _].
+      + intros loc0 [k v] H0 _. split; [|exact I]. unfold obj_entry. destruct (_ || _); [|exact H0].
+        specialize (Hv (JObj o) (Some k) loc0 v H0). destruct (value_step rem (JObj o) (Some k) loc0 v). exact Hv.
+      + exact H.
+      + apply Forall_forall. intros; exact I.
+      + destruct (map_st (obj_entry sel rem (JObj o)) loc o). exact H1.
+  Qed.
+
+  (* the result is an object exactly when the input is *)
+  Definition is_object (j : json) : bool := match j with JObj _ => true | _ => false end.
+
+  Lemma txl_is_object : forall loc container key val, is_object (snd (txl tx loc container key val)) = is_object val.
+  Proof. intros. unfold txl. cbn [snd]. destruct val; reflexivity. Qed.
+
+  Lemma visit_is_object : forall path loc j, is_object (snd (visit tx path loc j)) = is_object j.
+  Proof.
+    intros path loc j. destruct path as [|sel rem]; [reflexivity|]. destruct j as [| | | |l|o]; try reflexivity.
+    - rewrite visit_arr. destruct (fold_left _ l _) as [[i loc'] l']. reflexivity.
+    - rewrite visit_obj. destruct (map_st _ loc o). reflexivity.
+  Qed.
+
+  (* members other than the selected one stay *)
+  Lemma visit_obj_other : forall sel rem loc o k,
+    str_eqb sel star = false -> str_eqb k sel = false ->
+    forall o', snd (visit tx (sel :: rem) loc (JObj o)) = JObj o' -> olookup k o' = olookup k o.
+  Proof.
+    intros sel rem loc o k Hstar Hk o' E. rewrite visit_obj in E.
+    assert (Hm : forall l loc0, olookup k (snd (map_st (obj_entry sel rem (JObj o)) loc0 l)) = olookup k l).
+    { induction l as [|[k0 v0] l IHl]; intro loc0; [reflexivity|]. cbn [map_st].
+      destruct (obj_entry sel rem (JObj o) loc0 (k0, v0)) as [loc1 kv1] eqn:Ee.
+      specialize (IHl loc1). destruct (map_st (obj_entry sel rem (JObj o)) loc1 l) as [loc2 r]. cbn [snd] in *.
+      unfold obj_entry in Ee. rewrite Hstar, orb_false_r in Ee.
+      destruct (str_eqb k0 sel) eqn:E0.
+      - destruct (value_step rem (JObj o) (Some k0) loc0 v0) as [loc' v']. inversion Ee; subst.
+        cbn [olookup]. apply str_eqb_eq in E0. subst k0. rewrite Hk. exact IHl.
+      - inversion Ee; subst. cbn [olookup]. now rewrite IHl. }
+    specialize (Hm o loc). destruct (map_st (obj_entry sel rem (JObj o)) loc o) as [loc' o'']. cbn [snd] in *.
+    inversion E; subst. exact Hm.
+  Qed.
+
+  (* the selected member: gone if it was not there, otherwise what the rest of the path makes of it *)
+  Lemma visit_obj_at : forall sel rem loc o,
+    str_eqb sel star = false ->
+    forall o', snd (visit tx (sel :: rem) loc (JObj o)) = JObj o' ->
+    match olookup sel o with
+    | None => olookup sel o' = None
+    | Some v => exists loc0, olookup sel o' = Some (snd (value_step rem (JObj o) (Some sel) loc0 v))
+    end.
+  Proof.
+    intros sel rem loc o Hstar o' E. rewrite visit_obj in E.
+    assert (Hm : forall l loc0,
+               match olookup sel l with
+               | None => olookup sel (snd (map_st (obj_entry sel rem (JObj o)) loc0 l)) = None
+               | Some v => exists loc1, olookup sel (snd (map_st (obj_entry sel rem (JObj o)) loc0 l))
+                                        = Some (snd (value_step rem (JObj o) (Some sel) loc1 v))
+               end).
+    { induction l as [|[k0 v0] l IHl]; intro loc0; [reflexivity|]. cbn [map_st].
+      destruct (obj_entry sel rem (JObj o) loc0 (k0, v0)) as [loc1 kv1] eqn:Ee.
+      specialize (IHl loc1). destruct (map_st (obj_entry sel rem (JObj o)) loc1 l) as [loc2 r]. cbn [snd] in *.
+      unfold obj_entry in Ee. rewrite Hstar, orb_false_r in Ee. cbn [olookup].
+      rewrite (str_eqb_sym sel k0). destruct (str_eqb k0 sel) eqn:E0.
+      - apply str_eqb_eq in E0. subst k0.
+        destruct (value_step rem (JObj o) (Some sel) loc0 v0) as [loc' v'] eqn:Ev. inversion Ee; subst.
+        cbn [olookup]. rewrite str_eqb_refl. exists loc0. now rewrite Ev.
+      - inversion Ee; subst. cbn [olookup]. rewrite (str_eqb_sym sel k0), E0. exact IHl. }
+    specialize (Hm o loc). destruct (map_st (obj_entry sel rem (JObj o)) loc o) as [loc' o'']. cbn [snd] in *.
+    inversion E; subst. exact Hm.
+  Qed.
+End Visit.
+
+(* ---- Migrate13_3: the catalogue's paths stay clear of what validity looks at --------------------------------------------- *)
+
+Definition protected0 : list str := [k_type; k_category; k_result_name; k_template; k_template_variables].
+
+Definition steps_of (p : string) : option (list str) := parse_path (dollar ++ trim_suffix star_suffix (s p)).
+
+Definition action_steps_ok (row_type : str) (steps : list str) : bool :=
+  match steps with
+  | [] => true
+  | sel :: rem =>
+      negb (str_eqb sel star) && negb (mem_str sel protected0)
+      && (negb (str_eqb sel k_name) || negb (str_eqb row_type (s "set_run_result")))
+      && (negb (str_eqb sel k_templating)
+          || match rem with r1 :: _ => negb (str_eqb r1 star) && negb (str_eqb r1 k_template) | [] => false end)
+  end.
+
+Definition router_steps_ok (steps : list str) : bool :=
+  match steps with
+  | [] => true
+  | sel :: _ => negb (str_eqb sel star) && negb (str_eqb sel k_result_name) && negb (str_eqb sel k_categories)
+  end.
+
+Definition rows_ok (chk : str -> list str -> bool) (tab : list (string * list string)) : bool :=
+  forallb (fun row : string * list string =>
+             forallb (fun p => match steps_of p with Some st => chk (s (fst row)) st | None => true end) (snd row)) tab.
+
+(* finite obligation over the generated catalogue: no path starts at (or, below templating, touches) a member that
+   valid_current looks at *)
+Definition catalog_frame : bool :=
+  rows_ok action_steps_ok catalog_actions && rows_ok (fun _ => router_steps_ok) catalog_routers.
+
+Lemma catalog_frame_true : catalog_frame = true.
+Proof. vm_compute. reflexivity. Qed.
+
+Lemma catalog_paths_row : forall tab t p chk,
+  rows_ok chk tab = true -> In p (catalog_paths tab t) ->
+  match steps_of p with Some st => chk t st = true | None => True end.
+Proof.
+  intros tab t p chk H Hp. induction tab as [|[k ps] tab IH]; [contradiction|].
+  cbn [rows_ok forallb fst snd] in H. apply andb_true_iff in H. destruct H as [H1 H2].
+  cbn [catalog_paths] in Hp. destruct (str_eqb (s k) t) eqn:E.
+  - apply str_eqb_eq in E. subst t. rewrite forallb_forall in H1. specialize (H1 p Hp).
+    destruct (steps_of p); [exact H1 | exact I].
+  - now apply IH.
+Qed.
+
+Definition templating_rel (a' a : obj) : Prop :=
+  match get_obj k_templating a with
+  | Some t0 => exists t', get_obj k_templating a' = Some t' /\ olookup k_template t' = olookup k_template t0
+  | None => get_obj k_templating a' = None
+  end.
+
+Definition action_rel (srr : bool) (a' a : obj) : Prop :=
+  same_at protected0 a' a /\ (srr = true -> olookup k_name a' = olookup k_name a) /\ templating_rel a' a.
+
+Lemma action_rel_refl : forall srr a, action_rel srr a a.
+Proof.
+  intros srr a. split; [apply same_at_refl|]. split; [reflexivity|]. unfold templating_rel.
+  destruct (get_obj k_templating a) as [t0|]; [eauto | reflexivity].
+Qed.
+
+Lemma action_rel_trans : forall srr a b c, action_rel srr a b -> action_rel srr b c -> action_rel srr a c.
+Proof.
+  intros srr a b c [H1 [H2 H3]] [H4 [H5 H6]]. split; [eapply same_at_trans; eassumption|]. split.
+  - intro E. now rewrite H2, H5.
+  - unfold templating_rel in *. destruct (get_obj k_templating c) as [t0|].
+    + destruct H6 as [t1 [E1 E2]]. rewrite E1 in H3. destruct H3 as [t2 [E3 E4]]. exists t2. split; [exact E3 | congruence].
+    + rewrite H6 in H3. exact H3.
+Qed.
+
+Lemma mem_str_false : forall x l k, mem_str x l = false -> In k l -> str_eqb k x = false.
+Proof.
+  intros x l k H Hk. destruct (str_eqb k x) eqn:E; [|reflexivity]. apply str_eqb_eq in E. subst k.
+  unfold mem_str in H. assert (existsb (str_eqb x) l = true); [|congruence].
+  apply existsb_exists. exists x. split; [exact Hk | apply str_eqb_refl].
+Qed.
+
+Lemma is_type_same : forall t a' a, olookup k_type a' = olookup k_type a -> is_type t a' = is_type t a.
+Proof. intros t a' a H. unfold is_type, type_of, get_str. now rewrite H. Qed.
+
+Lemma action_ok_ext3 : forall g lim o a' a,
+  same_at [k_type; k_category; k_result_name] a' a ->
+  (is_type "set_run_result" a = true -> olookup k_name a' = olookup k_name a) ->
+  send_msg_ok g a' = send_msg_ok g a -> action_ok g lim o a' = action_ok g lim o a.
+Proof.
+  intros g lim o a' a Hs Hn Hsm.
+  assert (Ht : olookup k_type a' = olookup k_type a) by (apply Hs; cbn; tauto).
+  assert (Hc : olookup k_category a' = olookup k_category a) by (apply Hs; cbn; tauto).
+  assert (Hr : olookup k_result_name a' = olookup k_result_name a) by (apply Hs; cbn; tauto).
+  unfold action_ok, is_any_type. cbn [existsb]. rewrite !(is_type_same _ a' a Ht), Hsm.
+  unfold required_field, optional_field, string_field. rewrite Hc, Hr.
+  destruct (is_type "set_run_result" a); [now rewrite (Hn eq_refl) | reflexivity].
+Qed.
+
+Section Rewrite13_3.
+  Variable tx : str -> str.
+
+  Lemma rewrite_templates_action : forall (srr : bool) loc a p,
+    lok loc ->
+    match steps_of p with Some st => action_steps_ok (if srr then s "set_run_result" else ([] : str)) st = true | None => True end ->
+    lok (fst (rewrite_templates tx loc a p)) /\ action_rel srr (snd (rewrite_templates tx loc a p)) a.
+  Proof.
+    intros srr loc a p Hl Hp. unfold rewrite_templates. fold (steps_of p).
+    destruct (steps_of p) as [steps|]; [|split; [exact Hl | apply action_rel_refl]].
+    pose proof (visit_lok tx steps loc (JObj a) Hl) as Hlok.
+    pose proof (visit_is_object tx steps loc (JObj a)) as Hobj.
+    destruct steps as [|sel rem].
+    { cbn [visit fst snd]. split; [exact Hl | apply action_rel_refl]. }
+    destruct (visit tx (sel :: rem) loc (JObj a)) as [loc' j'] eqn:Ev. cbn [fst snd] in *.
+    destruct j' as [| | | | |o']; try discriminate Hobj. cbn [fst snd]. split; [exact Hlok|].
+    assert (Ev' : snd (visit tx (sel :: rem) loc (JObj a)) = JObj o') by now rewrite Ev.
+    cbn [action_steps_ok] in Hp. apply andb_true_iff in Hp. destruct Hp as [Hp Ht]. apply andb_true_iff in Hp.
+    destruct Hp as [Hp Hn]. apply andb_true_iff in Hp. destruct Hp as [Hstar Hprot].
+    apply negb_true_iff in Hstar, Hprot.
+    split; [|split].
+    - intros k Hk. apply (visit_obj_other tx sel rem loc a k Hstar); [|exact Ev'].
+      now apply (mem_str_false sel protected0).
+    - intro E. subst srr. apply (visit_obj_other tx sel rem loc a k_name Hstar); [|exact Ev'].
+      apply orb_true_iff in Hn. destruct Hn as [Hn|Hn]; apply negb_true_iff in Hn.
+      + now rewrite str_eqb_sym.
+      + now rewrite str_eqb_refl in Hn.
+    - unfold templating_rel. destruct (str_eqb sel k_templating) eqn:Es.
+      + apply str_eqb_eq in Es. subst sel. cbn [negb orb] in Ht.
+        destruct rem as [|r1 rem']; [discriminate|]. apply andb_true_iff in Ht. destruct Ht as [Hr1 Hr2].
+        apply negb_true_iff in Hr1, Hr2.
+        pose proof (visit_obj_at tx k_templating (r1 :: rem') loc a Hstar o' Ev') as Hat.
+        unfold get_obj. destruct (olookup k_templating a) as [v|]; [|now rewrite Hat].
+        destruct Hat as [loc0 Hat]. rewrite Hat. unfold value_step.
+        pose proof (visit_is_object tx (r1 :: rem') loc0 v) as Hio.
+        destruct v as [| | | | |t0].
+        1-5: (destruct (snd (visit tx (r1 :: rem') loc0 _)); try reflexivity; discriminate Hio).
+        destruct (snd (visit tx (r1 :: rem') loc0 (JObj t0))) as [| | | | |t'] eqn:Et; try discriminate Hio.
+        exists t'. split; [reflexivity|].
+        apply (visit_obj_other tx r1 rem' loc0 t0 k_template Hr1); [|exact Et]. now rewrite str_eqb_sym.
+      + assert (El : olookup k_templating o' = olookup k_templating a).
+        { apply (visit_obj_other tx sel rem loc a k_templating Hstar); [|exact Ev']. now rewrite str_eqb_sym. }
+        unfold get_obj. rewrite El. destruct (olookup k_templating a) as [[| | | | |t0]|]; try reflexivity. eauto.
+  Qed.
+
+  Lemma rewrite_all_action : forall g lim o st a, loc_inv st -> action_ok g lim o a = true ->
+    loc_inv (fst (rewrite_all tx catalog_actions st a)) /\ action_ok g lim o (snd (rewrite_all tx catalog_actions st a)) = true.
+  Proof.
+    intros g lim o st a Hst Ha. unfold rewrite_all.
+    set (srr := is_type "set_run_result" a).
+    assert (Hpaths : forall p, In p (catalog_paths catalog_actions (type_of a)) ->
+              match steps_of p with Some st => action_steps_ok (if srr then s "set_run_result" else ([] : str)) st = true | None => True end).
+    { intros p Hp. pose proof catalog_frame_true as Hc. unfold catalog_frame in Hc. apply andb_true_iff in Hc. destruct Hc as [Hc _].
+      pose proof (catalog_paths_row catalog_actions (type_of a) p action_steps_ok Hc Hp) as H.
+      destruct (steps_of p) as [steps|]; [|exact I]. unfold srr, is_type. destruct (str_eqb (type_of a) (s "set_run_result")) eqn:E.
+      - apply str_eqb_eq in E. now rewrite <- E.
+      - destruct steps as [|sel rem]; [reflexivity|]. cbn [action_steps_ok] in *.
+        apply andb_true_iff in H. destruct H as [H Ht]. apply andb_true_iff in H. destruct H as [H _].
+        rewrite H, Ht. cbn. now rewrite orb_true_r. }
+    assert (Hfold : forall ps acc, (forall p, In p ps -> In p (catalog_paths catalog_actions (type_of a))) ->
+              lok (fst acc) -> action_rel srr (snd acc) a ->
+              lok (fst (fold_left (fun (acc : option obj * obj) p => rewrite_templates tx (fst acc) (snd acc) p) ps acc))
+              /\ action_rel srr (snd (fold_left (fun (acc : option obj * obj) p => rewrite_templates tx (fst acc) (snd acc) p) ps acc)) a).
+    { induction ps as [|p ps IH]; intros [loc0 a0] Hin Hl Hr; [auto|]. cbn [fold_left fst snd] in *.
+      destruct (rewrite_templates_action srr loc0 a0 p Hl (Hpaths p (Hin p (or_introl eq_refl)))) as [H1 H2].
+      apply IH; [intros q Hq; apply Hin; now right | exact H1 | eapply action_rel_trans; eassumption]. }
+    destruct (Hfold (catalog_paths catalog_actions (type_of a)) (snd st, a)) as [H1 H2];
+      [auto | exact Hst | apply action_rel_refl |].
+    destruct (fold_left _ (catalog_paths catalog_actions (type_of a)) (snd st, a)) as [loc' a']. cbn [fst snd] in *.
+    split; [exact H1|]. destruct H2 as [Hs [Hn Ht]].
+    (* the validity of the action is a function of what action_rel keeps *)
+    rewrite (action_ok_ext3 g lim o a' a); [exact Ha| | |].
+    - intros k Hk. apply Hs. cbn in *. tauto.
+    - exact Hn.
+    - assert (Htpl : olookup k_template a' = olookup k_template a) by (apply Hs; cbn; tauto).
+      assert (Hvar : olookup k_template_variables a' = olookup k_template_variables a) by (apply Hs; cbn; tauto).
+      unfold send_msg_ok. destruct g; [now rewrite Htpl, Hvar|].
+      unfold templating_rel in Ht. destruct (get_obj k_templating a) as [t0|].
+      + destruct Ht as [t' [E1 E2]]. now rewrite E1, E2.
+      + now rewrite Ht, Htpl, Hvar.
+  Qed.
+End Rewrite13_3.
+
+Section Router13_3.
+  Variable tx : str -> str.
+
+  Definition router_keys : list str := [k_result_name; k_categories].
+
+  Lemma router_ok_ext : forall lim r' r, same_at router_keys r' r -> router_ok lim r' = router_ok lim r.
+  Proof.
+    intros lim r' r H.
+    assert (H1 : olookup k_result_name r' = olookup k_result_name r) by (apply H; cbn; tauto).
+    assert (H2 : olookup k_categories r' = olookup k_categories r) by (apply H; cbn; tauto).
+    unfold router_ok, optional_field, string_field. now rewrite H1, H2.
+  Qed.
+
+  Lemma rewrite_templates_router : forall loc r p,
+    lok loc -> match steps_of p with Some st => router_steps_ok st = true | None => True end ->
+    lok (fst (rewrite_templates tx loc r p)) /\ same_at router_keys (snd (rewrite_templates tx loc r p)) r.
+  Proof.
+    intros loc r p Hl Hp. unfold rewrite_templates. fold (steps_of p).
+    destruct (steps_of p) as [steps|]; [|split; [exact Hl | apply same_at_refl]].
+    pose proof (visit_lok tx steps loc (JObj r) Hl) as Hlok.
+    pose proof (visit_is_object tx steps loc (JObj r)) as Hobj.
+    destruct steps as [|sel rem].
+    { cbn [visit fst snd]. split; [exact Hl | apply same_at_refl]. }
+    destruct (visit tx (sel :: rem) loc (JObj r)) as [loc' j'] eqn:Ev. cbn [fst snd] in *.
+    destruct j' as [| | | | |o']; try discriminate Hobj. cbn [fst snd]. split; [exact Hlok|].
+    assert (Ev' : snd (visit tx (sel :: rem) loc (JObj r)) = JObj o') by now rewrite Ev.
+    cbn [router_steps_ok] in Hp. apply andb_true_iff in Hp. destruct Hp as [Hp H3]. apply andb_true_iff in Hp.
+    destruct Hp as [Hstar H2]. apply negb_true_iff in Hstar, H2, H3.
+    intros k [<-|[<-|[]]]; apply (visit_obj_other tx sel rem loc r _ Hstar); try exact Ev'; now rewrite str_eqb_sym.
+  Qed.
+
+  Lemma rewrite_all_router : forall lim st r, loc_inv st -> router_ok lim r = true ->
+    loc_inv (fst (rewrite_all tx catalog_routers st r)) /\ router_ok lim (snd (rewrite_all tx catalog_routers st r)) = true.
+  Proof.
+    intros lim st r Hst Hr. unfold rewrite_all.
+    assert (Hpaths : forall p, In p (catalog_paths catalog_routers (type_of r)) ->
+              match steps_of p with Some st => router_steps_ok st = true | None => True end).
+    { intros p Hp. pose proof catalog_frame_true as Hc. unfold catalog_frame in Hc. apply andb_true_iff in Hc. destruct Hc as [_ Hc].
+      exact (catalog_paths_row catalog_routers (type_of r) p (fun _ => router_steps_ok) Hc Hp). }
+    assert (Hfold : forall ps acc, (forall p, In p ps -> In p (catalog_paths catalog_routers (type_of r))) ->
+              lok (fst acc) -> same_at router_keys (snd acc) r ->
+              lok (fst (fold_left (fun (acc : option obj * obj) p => rewrite_templates tx (fst acc) (snd acc) p) ps acc))
+              /\ same_at router_keys (snd (fold_left (fun (acc : option obj * obj) p => rewrite_templates tx (fst acc) (snd acc) p) ps acc)) r).
+    { induction ps as [|p ps IH]; intros [loc0 r0] Hin Hl Hs; [auto|]. cbn [fold_left fst snd] in *.
+      destruct (rewrite_templates_router loc0 r0 p Hl (Hpaths p (Hin p (or_introl eq_refl)))) as [H1 H2].
+      apply IH; [intros q Hq; apply Hin; now right | exact H1 | eapply same_at_trans; eassumption]. }
+    destruct (Hfold (catalog_paths catalog_routers (type_of r)) (snd st, r)) as [H1 H2];
+      [auto | exact Hst | apply same_at_refl |].
+    destruct (fold_left _ (catalog_paths catalog_routers (type_of r)) (snd st, r)) as [loc' r']. cbn [fst snd] in *.
+    split; [exact H1|]. now rewrite (router_ok_ext lim r' r H2).
+  Qed.
+
+  Lemma migrate_13_3_valid : forall lang g lim o fr f,
+    body_ok lang g lim o f = true -> body_ok lang g lim o (fst (migrate_13_3 tx fr f)) = true.
+  Proof.
+    intros lang g lim o fr f H. unfold migrate_13_3.
+    apply (nodes_migration_valid lang g lim o g lim); [|exact H].
+    unfold node_13_3. apply actions_router_step_valid; [apply rewrite_all_action | apply rewrite_all_router].
+  Qed.
+End Router13_3.
+
+(* ---- the chain: which requirement each registered function establishes ---------------------------------------------------- *)
+
+Local Open Scope string_scope.
+(* flags = (13.2 applied, 13.5 applied, 13.6 applied); None: the function may not run in that state *)
+Definition flags_after (name : string) (fl : bool * bool * bool) : option (bool * bool * bool) :=
+  let '(l, g, lim) := fl in
+  if String.eqb name "Migrate13_1" then Some fl
+  else if String.eqb name "Migrate13_2" then Some (true, g, lim)
+  else if String.eqb name "Migrate13_3" then Some fl
+  else if String.eqb name "Migrate13_4" then Some fl
+  else if String.eqb name "Migrate13_5" then (if g then None else Some (l, true, lim))
+  else if String.eqb name "Migrate13_6" then (if lim then None else Some (l, g, true))
+  else None.
+Local Close Scope string_scope.
+
+Fixpoint run_flags (names : list string) (fl : bool * bool * bool) : option (bool * bool * bool) :=
+  match names with
+  | [] => Some fl
+  | n :: rest => match flags_after n fl with Some fl' => run_flags rest fl' | None => None end
+  end.
+
+Definition body_ok_fl (fl : bool * bool * bool) (o : bool) (f : obj) : bool :=
+  let '(l, g, lim) := fl in body_ok l g lim o f.
+
+Lemma body_ok_stamp : forall l g lim o v f, body_ok l g lim o (oset k_spec_version v f) = body_ok l g lim o f.
+Proof.
+  intros l g lim o v f. unfold body_ok. rewrite language_ok_oset by key_neq. now rewrite !olookup_oset_other by key_neq.
+Qed.
+
+Lemma step_flags : forall name m fl fl' o tx fr f,
+  migration_of_name name = Some m -> flags_after name fl = Some fl' ->
+  body_ok_fl fl o f = true -> body_ok_fl fl' o (fst (m tx fr f)) = true.
+Proof.
+  intros name m [[l g] lim] fl' o tx fr f Hm Hf H. unfold migration_of_name in Hm. unfold flags_after in Hf. cbn [body_ok_fl] in H.
+  destruct (String.eqb name "Migrate13_1"); [inversion Hm; inversion Hf; subst; now apply migrate_13_1_valid|].
+  destruct (String.eqb name "Migrate13_2"); [inversion Hm; inversion Hf; subst; now apply (migrate_13_2_valid l)|].
+  destruct (String.eqb name "Migrate13_3"); [inversion Hm; inversion Hf; subst; now apply migrate_13_3_valid|].
+  destruct (String.eqb name "Migrate13_4"); [inversion Hm; inversion Hf; subst; now apply migrate_13_4_valid|].
+  destruct (String.eqb name "Migrate13_5").
+  { destruct g; [discriminate|]. inversion Hm; inversion Hf; subst. now apply migrate_13_5_valid. }
+  destruct (String.eqb name "Migrate13_6"); [|discriminate].
+  destruct lim; [discriminate|]. inversion Hm; inversion Hf; subst. now apply migrate_13_6_valid.
+Qed.
+
+Lemma apply_versions_flags : forall tx steps fl fl' o fr f j' fr',
+  run_flags (map snd steps) fl = Some fl' -> body_ok_fl fl o f = true ->
+  apply_versions tx steps fr f = (MOut j', fr') ->
+  exists f', j' = JObj f' /\ body_ok_fl fl' o f' = true.
+Proof.
+  intros tx steps. induction steps as [|[v name] rest IH]; intros fl fl' o fr f j' fr' Hr H Ha.
+  - cbn in Hr, Ha. inversion Hr; inversion Ha; subst. eauto.
+  - cbn [map snd run_flags] in Hr. cbn [apply_versions] in Ha.
+    destruct (migration_of_name name) as [m|] eqn:Em; [|discriminate].
+    destruct (flags_after name fl) as [fl1|] eqn:Ef; [|discriminate].
+    pose proof (step_flags name m fl fl1 o tx fr f Em Ef H) as H1.
+    destruct (m tx fr f) as [f1 fr1]. cbn [fst] in H1.
+    apply (IH fl1 fl' o fr1 (oset k_spec_version (JStr (version_text v)) f1) j' fr' Hr); [|exact Ha].
+    destruct fl1 as [[l1 g1] lim1]. cbn [body_ok_fl] in *. now rewrite body_ok_stamp.
+Qed.
+
+Lemma vle_negb_vlt : forall a b, vle a b = negb (vlt b a).
+Proof.
+  intros a b. destruct (vlt b a) eqn:E; cbn [negb].
+  - destruct (vle a b) eqn:E2; [|reflexivity]. apply vlt_true in E. apply vle_true in E2. contradiction.
+  - now apply vlt_false_vle.
+Qed.
+
+(* finite obligation over the generated table, for every source version at once: the functions selected for
+   MigrateToLatest, in their order, take the requirements that hold at the source version to all of them *)
+Lemma latest_flags : forall from,
+  run_flags (map snd (select_versions registered from None)) (vle v13_2 from, vle v13_5 from, vle v13_6 from)
+  = Some (true, true, true).
+Proof.
+  intro from. rewrite !vle_negb_vlt. unfold select_versions, registered, v13_2, v13_5, v13_6. cbn [filter fst].
+  destruct (vlt from (13, 6, 0)); destruct (vlt from (13, 5, 0)); destruct (vlt from (13, 4, 0));
+    destruct (vlt from (13, 3, 0)); destruct (vlt from (13, 2, 0)); destruct (vlt from (13, 1, 0)); vm_compute; reflexivity.
+Qed.
+
+(* ---- valid at its version  ->  loads at the current version after MigrateToLatest ----------------------------------------- *)
+
+Lemma valid_after : forall tx j fr j' fr',
+  valid_source_with true j = true ->
+  migrate_to_latest tx j fr = (MOut j', fr') ->
+  valid_current j' = true.
+Proof.
+  intros tx j fr j' fr' Hv Hm. pose proof Hm as Hs. unfold migrate_to_latest in Hs. apply stamped in Hs.
+  destruct Hs as [from [v [Hh [Hh' [_ [_ Hcur]]]]]]. subst v.
+  unfold valid_source_with in Hv. rewrite Hh in Hv. destruct (header_is_object _ _ Hh) as [f ->].
+  unfold migrate_to_latest, migrate_to, migrate_with in Hm. rewrite Hh in Hm.
+  destruct (select_versions registered from None) as [|s0 steps] eqn:Es; [discriminate|].
+  pose proof (latest_flags from) as Hf. rewrite Es in Hf.
+  unfold valid_body_at in Hv. cbn [orb] in Hv.
+  destruct (apply_versions_flags tx (s0 :: steps) _ _ true fr f j' fr' Hf Hv Hm) as [f' [-> Hb]].
+  unfold valid_current. rewrite Hh'. cbn [body_ok_fl] in Hb. rewrite Hb, vle_refl, andb_true_r.
+  apply N.leb_refl.
+Qed.
+
+(* ---- witnesses ------------------------------------------------------------------------------------------------------------ *)
+
+Definition u (x : string) : json := JStr (s x).
+
+(* a 13.0 definition with a templated send_msg, an over-long set_run_result name and an over-long category *)
+Definition example_13_0 : json :=
+  JObj [(s "uuid", u "25a2d8b2-ae7c-4fed-964a-506fb8c3f0c0"); (s "name", u "T"); (s "spec_version", u "13.0.0");
+        (s "language", u "base"); (s "type", u "messaging");
+        (s "nodes", JArr [JObj [
+           (s "uuid", u "32bc60ad-5c86-465e-a6b8-049c44ecce49");
+           (s "actions", JArr [
+              JObj [(s "uuid", u "9d9290a7-3713-4c22-8821-4af0a64c0821"); (s "type", u "send_msg"); (s "text", u "hi @webhook");
+                    (s "templating", JObj [(s "template", JObj [(s "uuid", u "3ce100b7-a734-4b4e-891b-350b1279ade2"); (s "name", u "revive")]);
+                                           (s "variables", JArr [u "@webhook.name"])])];
+              JObj [(s "uuid", u "9d9290a7-3713-4c22-8821-4af0a64c0822"); (s "type", u "set_run_result");
+                    (s "name", u "My result name That is too long for goflow why do people do this to me");
+                    (s "category", u "Once again this too long why people why just use something short")]]);
+           (s "exits", JArr [JObj [(s "uuid", u "2d481ce6-efcf-4898-a825-f76208e32f2a")]])]])].
+
+(* the hypotheses of valid_after can be met, and the migration does run *)
+Example valid_after_applies :
+  valid_source_with true example_13_0 = true
+  /\ match fst (migrate_to_latest (fun x => x) example_13_0 [s "f1"; s "f2"]) with MOut _ => True | _ => False end.
+Proof. split; [vm_compute; reflexivity | vm_compute; exact I]. Qed.
+
+(* F12: a 13.5 definition whose call_webhook has a result_name of 70 characters *)
+Definition example_f12 : json :=
+  JObj [(s "uuid", u "25a2d8b2-ae7c-4fed-964a-506fb8c3f0c0"); (s "name", u "T"); (s "spec_version", u "13.5.0");
+        (s "language", u "eng"); (s "type", u "messaging");
+        (s "nodes", JArr [JObj [
+           (s "uuid", u "32bc60ad-5c86-465e-a6b8-049c44ecce49");
+           (s "actions", JArr [
+              JObj [(s "uuid", u "9d9290a7-3713-4c22-8821-4af0a64c0821"); (s "type", u "call_webhook"); (s "method", u "GET");
+                    (s "url", u "http://x.io");
+                    (s "result_name", u "Names should be catchy and short pleaseeeeeeeeeeeeeeeeeeeeeeeeeeeeeeeeeee")]]);
+           (s "exits", JArr [JObj [(s "uuid", u "2d481ce6-efcf-4898-a825-f76208e32f2a")]])]])].
+
+(* without the extra hypothesis the statement is false of the code as it is: valid at 13.5, not loadable after *)
+Lemma valid_after_refuted :
+  exists j, valid_source j = true
+    /\ match fst (migrate_to_latest (fun x => x) j []) with MOut j' => valid_current j' = false | _ => False end.
+Proof. exists example_f12. split; vm_compute; reflexivity. Qed.
+
+(* the hypotheses of the other theorems of props/C16.v can be met (closed computations) *)
+Definition example_current : json :=
+  JObj [(s "uuid", u "25a2d8b2-ae7c-4fed-964a-506fb8c3f0c0"); (s "name", u "T"); (s "spec_version", u "13.6.0");
+        (s "language", u "eng"); (s "type", u "messaging"); (s "nodes", JArr [])].
+
+Example untouched_applies :
+  header_version example_current = Some current_spec_version /\ vle current_spec_version current_spec_version = true
+  /\ valid_current example_current = true.
+Proof. vm_compute. auto. Qed.
+
+Example stepwise_applies :
+  match fst (migrate_to (fun x => x) example_13_0 (Some (13, 2, 0)) [s "f1"; s "f2"]) with MOut _ => True | _ => False end
+  /\ vle (13, 2, 0) (13, 4, 0) = true.
+Proof. split; [vm_compute; exact I | reflexivity]. Qed.
